@@ -132,6 +132,8 @@ def run(rep):
     for k in range(n_specs if actors else 0):
         m = actors[k % len(actors)]
         e = es.gen_edit(rng, m["parts"][0], m["parts"][1], bad=0.0 if k % 3 else 0.12)
+        if k % 11 == 5:
+            e = es.empties(rng, e)
         add_actor(m, e, "grammar")
     # exhaustive single-struct specifications of the smallest models
     for m in actors[:(1 if quick else 4)]:
@@ -162,28 +164,47 @@ def run(rep):
         for lab, e in es.slips(rng, m["parts"][0], m["parts"][1]):
             add_actor(m, e, "slip")
             cases[-1]["slip"] = lab
+        for lab, meta in es.meta_slips(m["parts"][0], m["parts"][1]):
+            add_actor(m, meta, "slip", is_meta=True)
+            cases[-1]["slip"] = "leaf-" + lab
     # documented special forms
     for m in actors[:2]:
         for e in (("bare",), ("filebare",)):
             add_actor(m, e, "grammar")
     # families
-    def add_family(m, fe, mes, origin, tag=None):
-        fmeta = es.to_meta(fe) if fe is not None else None
-        cases.append({"m": m, "kind": "family", "origin": origin, "fam": fe, "fmeta": fmeta, "mems": mes, "regression": tag,
-                      "attr": fam_attr(m, es.meta_text(fmeta) if fmeta else "", [es.meta_text(es.to_meta(x)) if x else "" for x in mes])})
+    def add_family(m, fe, mes, origin, tag=None, fmeta=None, mmetas=None):
+        """fe / mes: ASTs (or None); fmeta / mmetas: attribute trees given directly (slips that the AST cannot express)"""
+        fmeta = fmeta if fmeta is not None else (es.to_meta(fe) if fe is not None else None)
+        mmetas = mmetas if mmetas is not None else [es.to_meta(x) if x is not None else None for x in mes]
+        fam = None if fmeta is None else es.ast_of_meta(fmeta, family=True)
+        mems = [None if mm is None else es.ast_of_meta(mm) for mm in mmetas]
+        cases.append({"m": m, "kind": "family", "origin": origin, "fam": fam, "fmeta": fmeta, "mems": mems, "mmetas": mmetas, "regression": tag,
+                      "attr": fam_attr(m, es.meta_text(fmeta) if fmeta else "", [es.meta_text(x) if x else "" for x in mmetas])})
 
     for m in fams:
+        nm = len(m["members"])
         for tag, fe, mes in REGRESSION:
-            add_family(m, fe, (mes + [None] * len(m["members"]))[:len(m["members"])], "regression", tag)
+            add_family(m, fe, (mes + [None] * nm)[:nm], "regression", tag)
+    for m in (fams if not quick else fams[:2]):
+        nm = len(m["members"])
+        for lab, meta in es.meta_slips(m["parts"][0], m["parts"][0], family=True):
+            add_family(m, None, [None] * nm, "slip", fmeta=meta)
+            cases[-1]["slip"] = "family-leaf-" + lab
+        for lab, meta in es.meta_slips(m["parts"][1], m["parts"][2]):
+            add_family(m, None, [None] * nm, "slip", mmetas=[meta] + [None] * (nm - 1))
+            cases[-1]["slip"] = "member-leaf-" + lab
     for k in range((220 if quick else 2000) if fams else 0):
         m = fams[k % len(fams)]
         fe = None
         if rng.random() < 0.7:
             fe = es.gen_fam(rng, m["parts"][0], bad=0.1 if k % 3 == 0 else 0.0, single=(True if rng.random() < 0.25 else None))
+            if k % 11 == 5:
+                fe = es.empties(rng, fe)
         mes = []
         for j in range(len(m["members"])):
             if rng.random() < 0.45:
-                mes.append(es.gen_edit(rng, m["parts"][1 + 2 * j], m["parts"][2 + 2 * j], bad=0.08 if k % 4 == 0 else 0.0))
+                me = es.gen_edit(rng, m["parts"][1 + 2 * j], m["parts"][2 + 2 * j], bad=0.08 if k % 4 == 0 else 0.0)
+                mes.append(es.empties(rng, me) if k % 13 == 7 else me)
             else:
                 mes.append(None)
         add_family(m, fe, mes, "grammar")
@@ -220,24 +241,24 @@ def run(rep):
             items.append(("c%d" % i, "show_code_edit (e <- edit_parse %s ;; actor_code_edit e %s %s)" % (mt, coq_part(m["parts"][0]), coq_part(m["parts"][1]))))
             if not isinstance(c["ast"], str):
                 a = es.ast_coq(c["ast"])
-                items.append(("d%d" % i, "if nonempty %s then (if legal %s then show_ea (denote %s) else \"DIAG\") else \"OUTSIDE\"" % (a, a, a)))
+                items.append(("d%d" % i, "if nonempty %s && legal %s then show_ea (denote %s) else \"DIAG\"" % (a, a, a)))
         else:
             fm = es.meta_coq(c["fmeta"]) if c["fmeta"] else None
             items.append(("p%d" % i, "show_res (%s)" % ("edit_parse_family %s" % fm if fm else "Ok default_ea")))
             binds, mems = "", []
-            for j, me in enumerate(c["mems"]):
-                ex = "edit_parse_member %s" % es.meta_coq(es.to_meta(me)) if me else "Ok default_ea"
+            for j, mm in enumerate(c["mmetas"]):
+                ex = "edit_parse_member %s" % es.meta_coq(mm) if mm else "Ok default_ea"
                 items.append(("m%d_%d" % (i, j), "show_res (%s)" % ex))
-                if me:
-                    a = es.ast_coq(me)
-                    items.append(("dm%d_%d" % (i, j), "if nonempty %s then (if legal %s then show_ea (denote %s) else \"DIAG\") else \"OUTSIDE\"" % (a, a, a)))
+                if mm and not isinstance(c["mems"][j], str):
+                    a = es.ast_coq(c["mems"][j])
+                    items.append(("dm%d_%d" % (i, j), "if nonempty %s && legal %s then show_ea (denote %s) else \"DIAG\"" % (a, a, a)))
                 binds += "e%d <- %s ;; " % (j, ex)
                 mems.append("(e%d, %s, %s)" % (j, coq_part(m["parts"][1 + 2 * j]), coq_part(m["parts"][2 + 2 * j])))
             items.append(("c%d" % i, "show_code_edit (e <- %s ;; %sfamily_code_edit e %s %s)" % (
                 "edit_parse_family %s" % fm if fm else "Ok default_ea", binds, coq_part(m["parts"][0]), es.clist(mems))))
-            if c["fam"] is not None:
+            if c["fam"] is not None and not isinstance(c["fam"], str):
                 a = es.fam_coq(c["fam"])
-                items.append(("d%d" % i, "if nonempty_fam %s then (if legal_fam %s then show_ea (denote_fam %s) else \"DIAG\") else \"OUTSIDE\"" % (a, a, a)))
+                items.append(("d%d" % i, "if nonempty_fam %s && legal_fam %s then show_ea (denote_fam %s) else \"DIAG\"" % (a, a, a)))
     vals = {}
     CH = 900
     from concurrent.futures import ThreadPoolExecutor
@@ -255,12 +276,12 @@ def run(rep):
         """-> ('reject',) | ('outside',) | ('ok', expected code item list per type (sets), expected file parts per type)"""
         ast = c["ast"]
         if ast == "reject":
-            return ("reject", "unknown key or file(..) directly inside file(..)")
+            return ("reject", "unknown key, file(..) directly inside file(..), empty list or non-bare def / name")
         if ast == "outside":
             return ("outside",)
         o = es.oracle_spec(ast)
         if o is None:
-            return ("reject", "double declaration or nested file")
+            return ("reject", "double declaration, nested file or empty list")
         if o == "outside":
             return ("outside",)
         exp = []
@@ -274,24 +295,32 @@ def run(rep):
     def oracle_family(c):
         m = c["m"]
         exp = []
+        # verdicts of every specification in the attribute first: one "must be rejected" suffices, "outside" makes no demand
+        if c["fam"] == "outside" or "outside" in c["mems"]:
+            return ("outside",)
+        if c["fam"] == "reject" or "reject" in c["mems"]:
+            return ("reject", "unknown key, nested file, empty list or non-bare name")
         if c["fam"] is None:
             fo = es.NONE()
         else:
             fo = es.oracle_fam(c["fam"])
             if fo is None:
-                return ("reject", "family: double declaration or nested file")
+                return ("reject", "family: double declaration, nested file or empty list")
             if fo == "outside":
                 return ("outside",)
+        mos = []
+        for me in c["mems"]:
+            o = es.oracle_spec(me) if me else {"script": es.NONE(), "live": es.NONE()}
+            if o == "outside":
+                return ("outside",)
+            if o is None:
+                return ("reject", "member: double declaration, nested file or empty list")
+            mos.append(o)
         sp = es.oracle_split(fo, m["parts"][0])
         if sp is None:
             return ("reject", "family: a listed name matches nothing")
         exp.append(sp)
-        for j, me in enumerate(c["mems"]):
-            o = es.oracle_spec(me) if me else {"script": es.NONE(), "live": es.NONE()}
-            if o is None:
-                return ("reject", "member: double declaration or nested file")
-            if o == "outside":
-                return ("outside",)
+        for j, o in enumerate(mos):
             for key, part in (("script", m["parts"][1 + 2 * j]), ("live", m["parts"][2 + 2 * j])):
                 sp = es.oracle_split(o[key], part)
                 if sp is None:
@@ -307,7 +336,7 @@ def run(rep):
         if orc[0] == "reject":
             if real != "DIAG":
                 return False, "specification must be rejected (%s) but the macro returned %s" % (orc[1], real[:200])
-            if "matches nothing" not in orc[1] and c["kind"] == "actor" and isinstance(c["real_parse"], list):
+            if "matches nothing" not in orc[1] and isinstance(c["real_parse"], list):
                 return False, "specification must be rejected by the option parser (%s) but EditActor::parse accepted it as %s" % (orc[1], c["real_parse"][0])
             return True, ""
         if c["real_rec"] is None or None in c["real_rec"]:
@@ -356,16 +385,16 @@ def run(rep):
         # declarative meaning vs real parser (C15_parse_grammar / C15_family_parse / C15_member_parse instantiated on the real code);
         # the real parser reports one verdict for the whole attribute, so lines are compared only when everything was accepted
         den_ok = True
+        dens = [vals.get("d%d" % i)] + ([vals.get("dm%d_%d" % (i, j)) for j in range(len(c["mems"]))] if c["kind"] == "family" else [])
         if isinstance(c["real_parse"], list):
             got = [c["real_parse"][0]] + [x.split("=", 1)[1] for x in c["real_parse"][1:]]
-            dens = [vals.get("d%d" % i)] + ([vals.get("dm%d_%d" % (i, j)) for j in range(len(c["mems"]))] if c["kind"] == "family" else [])
             for g, d in zip(got, dens):
-                if d is not None and unq(d) != "OUTSIDE" and unq(d) != g:
+                if d is not None and unq(d) != g:
                     den_ok = False
-        else:
-            dens = [vals.get("d%d" % i)] + ([vals.get("dm%d_%d" % (i, j)) for j in range(len(c["mems"]))] if c["kind"] == "family" else [])
-            dens = [unq(d) for d in dens if d is not None]
-            if dens and "OUTSIDE" not in dens and c["real_parse"] == "DIAG" and "DIAG" not in dens and c["kind"] == "actor":
+        elif c["real_parse"] == "DIAG":
+            # rejected as a whole: fine iff some specification of the attribute is illegal, or one is not an AST of the grammar
+            present = [c["ast"]] if c["kind"] == "actor" else [x for x in [c["fam"]] + c["mems"] if x is not None]
+            if present and all(not isinstance(x, str) for x in present) and all(d is not None and unq(d) != "DIAG" for d in dens if d is not None):
                 den_ok = False
         holds, why = oracle_holds(c, orc)
         if c.get("slip") and orc[0] != "reject":
@@ -403,7 +432,7 @@ def run(rep):
     file_stage(rep, rng, actors, quick)
 
     rep.assumptions += [
-        "attribute paths are single identifiers and every list written in a specification is non-empty (`script()`, `imp()`, `file()` are outside the documented grammar; reported by C19)",
+        "attribute paths are single identifiers; `key = literal` where a list is expected and a bare `file` next to other elements are outside the documented grammar (only model = code is required there)",
         "method / trait names of one generated struct are pairwise distinct (checked on every full model of the run)",
         "impl blocks inside the documented envelope (<= 3 user methods here; no typed self receivers, no cfg attributes, no char literals in the source file: F8)",
         "projection: item kind (definition / inherent impl / trait impl), owner type, method and trait NAMES and their order; bodies, signatures, doc attributes are not compared",
